@@ -71,7 +71,7 @@ PROPS = {
         'L0 models Sender + Sapi (hand-written, Gen.* decision sites regenerated); oracles: burst budget, pending-queue selection, RACK/PTO marks, T3 expiries per tick, which parked writer wakes',
         'bounds hold while the policy is in force: FORWARD-TSN negotiated (prEnabled), stream in the association table, no openS/setRel on it during the run; MTU < 2^30',
         'nSent is the transmission count (stamped by the model on every chunk it puts in a packet; compared with the implementation per chunk per gather)',
-        'known findings D14 (fragmented messages) and D21 (abandoned chunk retransmitted once through a stale mark): the full-strength statements are false, witnesses decided and replayed']},
+        'known finding D14 (fragmented messages: bounds hold for the last fragment only; witness decided and replayed); D21 (abandoned chunk retransmitted through a stale mark) is fixed in /repo (6ddfdda), its witnesses are regression guards']},
     'C07': {'jobs': [E2E_PR], 'rule': E2E_RULE},
     'C08': {'jobs': [E2E_SD], 'rule': E2E_RULE},
     'C04': {'jobs': [HSD, E2E_HS, E2E_T], 'assumptions': [
